@@ -267,6 +267,13 @@ def recorder_app(calls, body=b"ok"):
     return app
 
 
+def shared_application(environ, start_response):
+    return shared_application.target(environ, start_response)
+
+
+shared_application.target = None
+
+
 class SyncHarness:
     _servers = {}
 
@@ -299,11 +306,10 @@ class SyncHarness:
             else:
                 adj = Adjustments(**adj_kw)
         harness = self
-
-        def trampoline(environ, start_response):
-            return trampoline.target(environ, start_response)
-
-        trampoline.target = None
+        # ONE application object for every server of the process, as in a deployment that calls
+        # create_server() several times for the same application (per-application state kept by the
+        # server code must not leak from one server's configuration into another's)
+        trampoline = shared_application
         disp = DeferredDispatcher()
         if unix:
             sock = FakeListenSocket(name="/nonexistent/vf.sock")
@@ -333,8 +339,8 @@ class SyncHarness:
         disp.queue.clear()
         del _exc_log[:]
         conn = FakeConn(segments, eof=eof, send_pattern=send_pattern, sndbuf=sndbuf)
-        if self.unix:
-            addr = srv.fix_addr(addr)
+        # as handle_accept() does for every kind of listening server
+        addr = srv.fix_addr(addr)
         ch = HTTPChannel(srv, conn, addr, srv.adj, map=srv._map)
         total = sum(len(s) for s in segments)
         if max_steps is None and any(isinstance(s, WaitFor) for s in segments):
